@@ -62,7 +62,7 @@ func (o Op) String() string {
 		return fmt.Sprintf("h%d.writestring(%s)", o.H, strconv.Quote(o.C))
 	case "create", "readlink", "lstat":
 		return o.K + " " + o.P
-	case "mkdir", "mkdirall", "remove", "removeall", "stat", "list", "read":
+	case "mkdir", "mkdirall", "remove", "removeall", "stat", "list", "read", "many":
 		return fmt.Sprintf("%s %s", o.K, o.P)
 	case "put":
 		return fmt.Sprintf("put %s %s", o.P, strconv.Quote(o.C))
@@ -228,6 +228,18 @@ func ExecModel(m *model.FS, o Op) string {
 			return "src-missing"
 		}
 		return ""
+	case "many":
+		if r := m.Mkdir(o.P, 0o755); r != "" {
+			return r
+		}
+		for i := 0; i < 12; i++ {
+			if i%3 == 0 {
+				m.Mkdir(fmt.Sprintf("%s/c%02d", o.P, i), 0o755)
+			} else {
+				m.Put(fmt.Sprintf("%s/c%02d", o.P, i), []byte(fmt.Sprint(i)), 0o666)
+			}
+		}
+		return ""
 	case "stat", "read", "list":
 		p := model.Clean(o.P)
 		n, ok := m.N[p]
@@ -339,6 +351,22 @@ func ExecImpl(s *rig.Stack, o Op) error {
 			return err
 		}
 		s.SetHandle(o.H, &rig.Handle{F: f, Path: o.P, Flags: o.N})
+		return nil
+	case "many":
+		if err := fsys.Mkdir(o.P, 0o755); err != nil {
+			return err
+		}
+		for i := 0; i < 12; i++ {
+			var err error
+			if i%3 == 0 {
+				err = fsys.Mkdir(fmt.Sprintf("%s/c%02d", o.P, i), 0o755)
+			} else {
+				err = ExecImpl(s, Op{K: "put", P: fmt.Sprintf("%s/c%02d", o.P, i), C: fmt.Sprint(i)})
+			}
+			if err != nil {
+				return fmt.Errorf("child %d: %w", i, err)
+			}
+		}
 		return nil
 	case "create":
 		f, err := fsys.Create(o.P)
